@@ -56,8 +56,10 @@ Parameter audit (second random stream, cases tagged "fam"; counters aud:<family>
                  (Python int, NumPy array, length-1 axes); unravel_index: int32 / uint8 indices, shape as list
   coarsen_kw     coarsen: keyword arguments for the reduction (np.var ddof=1, np.std ddof=0, np.sum dtype=), np.prod, da.mean, da.max,
                  axes of length 9-24 (several blocks larger than the factor), a factor larger than the axis with trim_excess
-State facet: every NumPy array handed to from_array is copied before the computation and compared afterwards
-(``<op>:...:input-array-modified``; counter inputs_unchanged_checked); bincount counts input:combine-level when there are more blocks
+State facet: every collection handed to a routine (from_array; its graph holds the blocks the kernels receive) is computed
+again after the routine's result was computed and compared with the data it was built from - a kernel that writes into its argument
+leaves the caller's collection changed
+(``<op>:...:input-collection-modified``; counter inputs_unchanged_checked); bincount counts input:combine-level when there are more blocks
 than split_every.
 Calibration of the audit families
 * float32 data with a NUMBER of bins: NumPy >= 2 returns float32 edges (result_type(range, a)) and computes density with float32
@@ -94,8 +96,10 @@ PROP = "C27"
 RULE = ("cases = (operation, input shapes 0-3 d with lengths 0-8, data alphabet/NaN seed, chunking with inserted empty "
         "chunks, per-operation parameters). Complete part: all 32 chunkings of a length-6 array over the alphabet "
         "{0,1,2} x {unique with all 8 optional-output combinations, bincount (minlength 0/5, weights), searchsorted "
-        "(left/right), isin (invert), nonzero}. non-trivial = some input axis split into >= 2 chunks; distinct = "
-        "distinct case description without data seed.")
+        "(left/right), isin (invert), nonzero}. Parameter-audit part (own stream): narrow / mixed dtypes and +-inf, "
+        "arrays above 255 elements, every accepted spelling of bins / range / edges / sample / dims / mode, NumPy and list "
+        "arguments, reduction keyword arguments and long axes for coarsen, sorter= and 0-d v for searchsorted. "
+        "non-trivial = some input axis split into >= 2 chunks; distinct = distinct case description without data seed.")
 ASSUMPTIONS = ["NumPy 2.x defines the expected values, dtype and shape", "sync scheduler",
                "coarsen reference = trim, reshape to (n//k, k) per axis and reduce (harness code)"]
 BUDGET = {"quick": 60, "thorough": 560}
@@ -115,8 +119,24 @@ FLOORS = {"quick": {"evaluations": 1700, "distinct_nontrivial": 1200,
                        "max_skipped_fraction": 0.1}}
 # sibling facet (vf/mon/siblings.py): ~45 % of the smallest count of the five quick seeds on the unchanged tree; thorough =
 # quick floor x (thorough / quick stream size) x 0.6.  A run in which the facet never executed is INCONCLUSIVE.
-FLOORS["quick"]["counters"].update({"siblings_built": 1050, "siblings_computed_together": 155, "siblings_with_different_values": 170})
+FLOORS["quick"]["counters"].update({"siblings_built": 1480, "siblings_computed_together": 210, "siblings_with_different_values": 245})
 FLOORS["thorough"]["counters"].update({"siblings_built": 10500, "siblings_computed_together": 1550, "siblings_with_different_values": 1700})
+# parameter-audit families and the classes inside them: ~45 % of the smallest count of the five quick seeds on the unchanged tree;
+# thorough = quick floor x 10 (ratio of the audit streams) x 0.7
+_AUD = {"aud:dtype": 85, "aud:big": 92, "aud:chunk>255": 32, "aud:histforms": 59, "aud:ddforms": 54, "aud:digitize_bins": 25,
+        "aud:ss_forms": 33, "aud:aslike": 58, "aud:rmi_forms": 63, "aud:coarsen_kw": 60,
+        "input:range=lazy": 8, "input:range=dask": 4, "input:range=delayed-scalars": 4, "input:bins=int-dask0d": 5, "input:range+edges": 9,
+        "input:sorter": 15, "input:kwargs": 14, "input:long-axis": 39, "input:members-broadcast": 13, "input:mode=per-dim": 13,
+        "input:a=numpy": 29, "input:a=list": 12, "input:element=numpy": 4, "input:element=list": 7, "input:sample_kind=list": 29,
+        "input:edges_kind=list": 14, "input:edges_kind=tuple": 17, "input:index=int32": 9, "input:bins=empty": 3, "input:bins=list": 4,
+        "input:combine-level": 22, "inputs_unchanged_checked": 3100}
+FLOORS["quick"]["counters"].update(_AUD)
+FLOORS["thorough"]["counters"].update({k: int(v * 7) for k, v in _AUD.items()})
+FLOORS["quick"].update({"evaluations": 2100, "distinct_nontrivial": 1550})
+FLOORS["quick"]["counters"].update({"compared": 2100, "lazy_meta_checked": 2900})
+FLOORS["thorough"].update({"evaluations": 33000, "distinct_nontrivial": 22500})
+FLOORS["thorough"]["counters"].update({"compared": 32700, "lazy_meta_checked": 44000, "siblings_built": 23500,
+                                       "siblings_computed_together": 3500, "siblings_with_different_values": 4000})
 EXHAUSTIVE_SPACE = ("all 32 chunkings of a length-6 array with pattern over {0,1,2} x {unique x 8 optional-output "
                     "combinations, bincount x minlength {0,5} x weights {no,yes}, searchsorted x side {left,right}, "
                     "isin x invert, nonzero}")
@@ -672,11 +692,21 @@ def _chunks(desc):
     return tuple(tuple(c) for c in desc["chunks"])
 
 
-def _da(desc):
+_REG = []      # (snapshot of the data, dask collection built from it) of the case being evaluated - see _evaluate
+
+
+def _fa(x, chunks):
+    """da.from_array, remembering the collection: a routine must leave the collections it was given as they were."""
     import dask.array as da
 
+    d = da.from_array(x, chunks=chunks)
+    _REG.append((np.array(x, copy=True), d))
+    return d
+
+
+def _da(desc):
     x = _data(desc)
-    return x, da.from_array(x, chunks=_chunks(desc))
+    return x, _fa(x, _chunks(desc))
 
 
 def _weights(kind, wseed, shape):
@@ -727,6 +757,7 @@ def _evaluate(case):
     list of dict(who, sym, msg, detail)."""
     op = case["op"]
     out = {"status": "ok", "reason": None, "plan": None, "findings": [], "shapes": [], "lazy_checked": 0}
+    del _REG[:]
     try:
         plan = globals()["_p_" + op](case)
     except _Reject as ex:
@@ -740,9 +771,6 @@ def _evaluate(case):
         return dict(out, status="reject", reason="numpy: %s: %s" % (type(ex).__name__, ex))
     import dask
 
-    # STATE: from_array hands the very NumPy buffers to the kernels (sync scheduler); a routine must not write into them
-    inputs = [i for i in plan.get("inputs", ()) if isinstance(i, np.ndarray)]
-    before = [i.copy() for i in inputs]
     try:
         lazy = plan["run"]()
         lazy = tuple(lazy) if isinstance(lazy, (tuple, list)) else (lazy,)
@@ -762,10 +790,25 @@ def _evaluate(case):
         return out
     expected = tuple(expected) if isinstance(expected, (tuple, list)) else (expected,)
     out["compared"] = True
-    out["inputs_checked"] = len(inputs)
-    if any(not np.array_equal(i, b, equal_nan=i.dtype.kind in "fc") for i, b in zip(inputs, before)):
-        out["findings"].append({"who": label, "sym": "input-array-modified", "msg": "an input NumPy array was written to during the computation",
-                                "detail": {}})
+    # STATE: the graph of a from_array collection holds its blocks and hands those very objects to the kernels (sync
+    # scheduler).  A kernel that writes into its argument leaves the caller's collection changed for every later use, so
+    # the collections the routine was given are computed again afterwards and compared with the data they were built from.
+    bases = list(_REG)
+    out["inputs_checked"] = len(bases)
+    try:
+        again = dask.compute(*[d for _, d in bases], scheduler="sync") if bases else ()
+    except CaseTimeout:
+        raise
+    except Exception as ex:  # noqa: BLE001
+        again = None
+        out["findings"].append({"who": label, "sym": "input-collection-modified", "msg": "an input collection cannot be computed after the routine ran: %s: %s" % (type(ex).__name__, str(ex)[:200]), "detail": {}})
+    for (snap, _), now in zip(bases, again or ()):
+        now = np.asarray(now)
+        if now.shape != snap.shape or now.dtype != snap.dtype or not np.array_equal(now, snap, equal_nan=snap.dtype.kind in "fc"):
+            out["findings"].append({"who": label, "sym": "input-collection-modified",
+                                    "msg": "an input collection gives other values after the routine was computed (a kernel wrote into its argument)",
+                                    "detail": {"got": now, "expected": snap}})
+            break
     if len(values) != len(expected):
         out["findings"].append({"who": label, "sym": "number-of-outputs",
                                 "msg": "%d outputs vs %d expected" % (len(values), len(expected)), "detail": {}})
@@ -1114,7 +1157,7 @@ def _p_unique(case):
     kw = {"return_index": bool(fl & 1), "return_inverse": bool(fl & 2), "return_counts": bool(fl & 4)}
     names = ("values",) + tuple(n for n, b in (("index", fl & 1), ("inverse", fl & 2), ("counts", fl & 4)) if b)
     feat = _input_features((x, d.chunks))
-    return {"label": "unique", "feat": feat, "params": ["nd>1"] if x.ndim > 1 else [], "nontrivial": _split(d.chunks), "names": names, "inputs": [x],
+    return {"label": "unique", "feat": feat, "params": ["nd>1"] if x.ndim > 1 else [], "nontrivial": _split(d.chunks), "names": names,
             "ref": lambda: np.unique(x, **kw), "run": lambda: da.unique(d, **kw)}
 
 
@@ -1125,7 +1168,7 @@ def _p_bincount(case):
     w = dw = None
     if case["weights"]:
         w = _weights(case["weights"], case["wseed"], x.shape)
-        dw = da.from_array(w, chunks=d.chunks)
+        dw = _fa(w, chunks=d.chunks)
     kw = {"minlength": case["minlength"]}
     feat = _input_features((x, d.chunks))
     feat += "&minlength>0" if case["minlength"] else ""
@@ -1136,7 +1179,7 @@ def _p_bincount(case):
     tol = (max(1, x.size), float(np.abs(w).sum()) or 1.0) if case["weights"] == "frac" else None
     # Calibration: np.bincount(empty, weights=empty) returns int64 (NumPy ignores the weights on its empty-input
     # shortcut) although every non-empty weighted call returns float64; dask returns float64 throughout.
-    return {"label": "bincount", "feat": feat, "params": params, "check_dtype": not (x.size == 0 and w is not None), "nontrivial": _split(d.chunks), "tol": tol, "inputs": [x, w],
+    return {"label": "bincount", "feat": feat, "params": params, "check_dtype": not (x.size == 0 and w is not None), "nontrivial": _split(d.chunks), "tol": tol,
             "ref": lambda: np.bincount(x, weights=w, **kw),
             "run": lambda: da.bincount(d, weights=dw, split_every=case["split_every"], **kw)}
 
@@ -1147,12 +1190,12 @@ def _bins_args(b, dask_ok=True):
     if b["kind"] == "int":
         return b["n"], tuple(b["range"]), b["n"], tuple(b["range"])
     if b["kind"] == "int-dask0d":         # a lazy number of bins (0-d dask array); needs range
-        return da.from_array(np.int64(b["n"]), chunks=()), tuple(b["range"]), b["n"], tuple(b["range"])
+        return _fa(np.int64(b["n"]), chunks=()), tuple(b["range"]), b["n"], tuple(b["range"])
     e = np.array(b["edges"])
     if b["kind"] == "edges-list":
         return list(b["edges"]), None, list(b["edges"]), None
     if b["kind"] == "edges-dask" and dask_ok:
-        return da.from_array(e, chunks=max(1, len(e) // 2)), None, e, None
+        return _fa(e, chunks=max(1, len(e) // 2)), None, e, None
     return e, None, e, None
 
 
@@ -1169,8 +1212,8 @@ def _range_arg(kind, rg):
     if kind == "ndarray":
         return np.array([lo, hi])
     if kind == "dask":
-        return da.from_array(np.array([lo, hi]), chunks=1)
-    src = da.from_array(np.array([lo, hi, lo - 1.0]), chunks=2)
+        return _fa(np.array([lo, hi]), chunks=1)
+    src = _fa(np.array([lo, hi, lo - 1.0]), chunks=2)
     if kind == "lazy":
         return [src.min() + 1.0, src.max()]
     if kind == "mixed":
@@ -1187,7 +1230,7 @@ def _p_histogram(case):
     w = dw = None
     if case["weights"]:
         w = _weights(case["weights"], case["wseed"], x.shape)
-        dw = da.from_array(w, chunks=d.chunks)
+        dw = _fa(w, chunks=d.chunks)
     dbins, drange, nbins, nrange = _bins_args(case["bins"])
     if case.get("extra_range"):           # range= next to explicit edges: NumPy ignores it
         drange = nrange = tuple(case["extra_range"])
@@ -1208,7 +1251,6 @@ def _p_histogram(case):
         if case["density"]:
             tol = (tol[0], 1e3)     # densities are O(1/width); widths >= 0.1
     return {"label": "histogram", "feat": feat, "params": params, "nontrivial": _split(d.chunks), "names": ("hist", "edges"), "tol": tol,
-            "inputs": [x, w],
             "ref": lambda: np.histogram(x, bins=nbins, range=nrange, weights=w, **kw),
             "run": lambda: da.histogram(d, bins=dbins, range=_range_arg(case.get("range_kind"), drange), weights=dw, **kw)}
 
@@ -1242,11 +1284,11 @@ def _p_histogram2d(case):
 
     x, dx = _da(case["a"])
     y = _data(case["b"])
-    dy = da.from_array(y, chunks=dx.chunks)
+    dy = _fa(y, chunks=dx.chunks)
     w = dw = None
     if case["weights"]:
         w = _weights(case["weights"], case["wseed"], x.shape)
-        dw = da.from_array(w, chunks=dx.chunks)
+        dw = _fa(w, chunks=dx.chunks)
     bins, rng_ = _dd_bins(case["form"], [case["bx"], case["by"]], case.get("edges_kind"), case.get("range_kind"))
     kw = {}
     if case["density"] is not None:
@@ -1257,7 +1299,7 @@ def _p_histogram2d(case):
     feat += "&density" if case["density"] else ""
     tol = (max(1, x.size), 1e3) if case["density"] else (max(1, x.size), float(np.abs(w).sum()) or 1.0) if case["weights"] == "frac" else None
     return {"label": "histogramdd", "feat": feat, "params": params, "nontrivial": _split(dx.chunks), "names": ("hist", "xedges", "yedges"),
-            "tol": tol, "inputs": [x, y, w],
+            "tol": tol,
             "ref": lambda: np.histogram2d(x, y, bins=bins, range=rng_, weights=w, **kw),
             "run": lambda: da.histogram2d(dx, dy, bins=bins, range=rng_, weights=dw, **kw)}
 
@@ -1271,11 +1313,11 @@ def _p_histogramdd(case):
     w = dw = None
     if case["weights"]:
         w = _weights(case["weights"], case["wseed"], (n,))
-        dw = da.from_array(w, chunks=(rows,))
+        dw = _fa(w, chunks=(rows,))
     if case["rect"]:
-        ds = da.from_array(s, chunks=(rows, (D,)))
+        ds = _fa(s, chunks=(rows, (D,)))
     else:
-        ds = tuple(da.from_array(np.ascontiguousarray(s[:, j]), chunks=(rows,)) for j in range(D))
+        ds = tuple(_fa(np.ascontiguousarray(s[:, j]), chunks=(rows,)) for j in range(D))
         if case.get("sample_kind") == "list":
             ds = list(ds)
     bins, rng_ = _dd_bins(case["form"], case["bins"], case.get("edges_kind"), case.get("range_kind"))
@@ -1299,7 +1341,7 @@ def _p_histogramdd(case):
         return (h,) + tuple(e)
 
     return {"label": "histogramdd", "feat": feat, "params": params, "nontrivial": _split((rows,)),
-            "names": ("hist",) + tuple("edges%d" % j for j in range(D)), "tol": tol, "inputs": [s, w], "ref": ref, "run": run}
+            "names": ("hist",) + tuple("edges%d" % j for j in range(D)), "tol": tol, "ref": ref, "run": run}
 
 
 def _p_digitize(case):
@@ -1313,7 +1355,7 @@ def _p_digitize(case):
     feat = _input_features((x, d.chunks))
     params = (["decreasing"] if len(e) > 1 and e[0] > e[-1] else []) + (["right"] if case["right"] else [])
     params += ["bins=" + bk] if bk else []
-    return {"label": "digitize", "feat": feat, "params": params, "nontrivial": _split(d.chunks), "inputs": [x],
+    return {"label": "digitize", "feat": feat, "params": params, "nontrivial": _split(d.chunks),
             "ref": lambda: np.digitize(x, e, right=case["right"]), "run": lambda: da.digitize(d, e, right=case["right"])}
 
 
@@ -1334,10 +1376,10 @@ def _p_searchsorted(case):
         # acceptable outcomes are NotImplementedError (counted unsupported) or NumPy's result - not a silently ignored sorter.
         r = np.random.default_rng(case["a"]["seed"])
         x = x[r.permutation(len(x))]
-        d = da.from_array(x, chunks=d.chunks)
+        d = _fa(x, chunks=d.chunks)
         kw["sorter"] = np.argsort(x, kind="stable")
         params.append("sorter")
-    return {"label": "searchsorted", "feat": feat, "params": params, "nontrivial": _split(d.chunks), "inputs": [x, v],
+    return {"label": "searchsorted", "feat": feat, "params": params, "nontrivial": _split(d.chunks),
             "ref": lambda: np.searchsorted(x, v, side=case["side"], **kw), "run": lambda: da.searchsorted(d, dv, side=case["side"], **kw)}
 
 
@@ -1357,7 +1399,7 @@ def _p_isin(case):
     feat = _input_features((x, d.chunks if ek == "dask" else None), (t, dt.chunks if case["tkind"] == "dask" else None))
     params = (["assume_unique"] if au else []) + (["invert"] if case["invert"] else []) + ["test=" + case["tkind"]]
     params += ["element=" + ek] if ek != "dask" else []
-    return {"label": "isin", "feat": feat, "params": params, "inputs": [x, t],
+    return {"label": "isin", "feat": feat, "params": params,
             "nontrivial": (ek == "dask" and _split(d.chunks)) or (case["tkind"] == "dask" and _split(dt.chunks)),
             "ref": lambda: np.isin(xr, t, assume_unique=au, invert=case["invert"]),
             "run": lambda: da.isin(earg, targ, assume_unique=au, invert=case["invert"])}
@@ -1380,7 +1422,7 @@ def _p_nonzero(case):
     arg, ch, extra, xr = _akind(case, x, d)
     feat = _input_features((x, ch)) + ("&nd>1" if x.ndim > 1 else "")
     return {"label": "argwhere", "feat": feat, "params": ["via-nonzero"] + extra, "nontrivial": bool(ch) and _split(ch), "names": tuple("axis%d" % i for i in range(x.ndim)),
-            "inputs": [x], "ref": lambda: np.nonzero(xr), "run": lambda: da.nonzero(arg)}
+            "ref": lambda: np.nonzero(xr), "run": lambda: da.nonzero(arg)}
 
 
 def _p_argwhere(case):
@@ -1389,7 +1431,7 @@ def _p_argwhere(case):
     x, d = _da(case["a"])
     arg, ch, extra, xr = _akind(case, x, d)
     feat = _input_features((x, ch)) + ("&nd>1" if x.ndim > 1 else "")
-    return {"label": "argwhere", "feat": feat, "params": extra, "nontrivial": bool(ch) and _split(ch), "inputs": [x],
+    return {"label": "argwhere", "feat": feat, "params": extra, "nontrivial": bool(ch) and _split(ch),
             "ref": lambda: np.argwhere(xr), "run": lambda: da.argwhere(arg)}
 
 
@@ -1399,7 +1441,7 @@ def _p_flatnonzero(case):
     x, d = _da(case["a"])
     arg, ch, extra, xr = _akind(case, x, d)
     feat = _input_features((x, ch)) + ("&nd>1" if x.ndim > 1 else "")
-    return {"label": "argwhere", "feat": feat, "params": ["via-flatnonzero"] + extra, "nontrivial": bool(ch) and _split(ch), "inputs": [x],
+    return {"label": "argwhere", "feat": feat, "params": ["via-flatnonzero"] + extra, "nontrivial": bool(ch) and _split(ch),
             "ref": lambda: np.flatnonzero(xr), "run": lambda: da.flatnonzero(arg)}
 
 
@@ -1414,7 +1456,7 @@ def _p_count_nonzero(case):
     arg, ch, extra, xr = _akind(case, x, d)
     feat = _input_features((x, ch))
     params = ["axis=" + ("None" if axis is None else "int" if isinstance(axis, int) else "tuple")] + extra
-    return {"label": "count_nonzero", "feat": feat, "params": params, "nontrivial": bool(ch) and _split(ch), "inputs": [x],
+    return {"label": "count_nonzero", "feat": feat, "params": params, "nontrivial": bool(ch) and _split(ch),
             "ref": lambda: np.count_nonzero(xr, axis=axis), "run": lambda: da.count_nonzero(arg, axis=axis)}
 
 
@@ -1438,7 +1480,7 @@ def _p_ravel_multi_index(case):
     members = case.get("members")
     if case["stacked"]:
         st = np.stack(idx)
-        darg = da.from_array(st, chunks=tuple(tuple(c) for c in case["schunks"]))
+        darg = _fa(st, chunks=tuple(tuple(c) for c in case["schunks"]))
         narg = st
         chunks = darg.chunks
     elif members:
@@ -1452,16 +1494,16 @@ def _p_ravel_multi_index(case):
                 dl.append(i), nl.append(i)
             elif mk == "ones":        # length-1 axes (held in one chunk) that broadcast against the other members
                 j = i[tuple(slice(0, 1) if o else slice(None) for o in om)]
-                dd = da.from_array(j, chunks=tuple((1,) if (o and n) else tuple(c) for o, n, c in zip(om, ish, ch)))
+                dd = _fa(j, chunks=tuple((1,) if (o and n) else tuple(c) for o, n, c in zip(om, ish, ch)))
                 dl.append(dd), nl.append(j)
                 chunks += dd.chunks
             else:
-                dd = da.from_array(i, chunks=tuple(tuple(c) for c in ch))
+                dd = _fa(i, chunks=tuple(tuple(c) for c in ch))
                 dl.append(dd), nl.append(i)
                 chunks += dd.chunks
         darg, narg = tuple(dl), tuple(nl)
     else:
-        ds = [da.from_array(i, chunks=tuple(tuple(c) for c in ch)) for i, ch in zip(idx, case["chunks"])]
+        ds = [_fa(i, chunks=tuple(tuple(c) for c in ch)) for i, ch in zip(idx, case["chunks"])]
         darg, narg = tuple(ds), tuple(idx)
         chunks = tuple(c for dd in ds for c in dd.chunks)
     ddims = dims[0] if case["scalar_dims"] else _dims_arg(case.get("dims_kind"), dims)
@@ -1469,7 +1511,7 @@ def _p_ravel_multi_index(case):
     params = ["mode=" + (mode if isinstance(mode, str) else "per-dim"), "order=" + case["order"]]
     params += (["dims=" + case["dims_kind"]] if case.get("dims_kind") else []) + (["index=" + idt] if idt != "int64" else [])
     params += ["members-broadcast"] if members else []
-    return {"label": "ravel_multi_index", "feat": feat, "params": params, "nontrivial": _split(chunks), "inputs": idx,
+    return {"label": "ravel_multi_index", "feat": feat, "params": params, "nontrivial": _split(chunks),
             "ref": lambda: np.ravel_multi_index(narg, ddims, mode=mode, order=case["order"]),
             "run": lambda: da.ravel_multi_index(darg, ddims, mode=mode, order=case["order"])}
 
@@ -1482,13 +1524,12 @@ def _p_unravel_index(case):
     r = np.random.default_rng(case["seed"])
     idt = case.get("idtype", "int64")
     idx = r.integers(0, min(int(np.prod(dims)), 256 if idt == "uint8" else 2 ** 31), int(np.prod(ish))).astype(idt).reshape(ish)
-    d = da.from_array(idx, chunks=tuple(tuple(c) for c in case["chunks"]))
+    d = _fa(idx, chunks=tuple(tuple(c) for c in case["chunks"]))
     feat = _input_features((idx, d.chunks)) + ("&nd>1" if idx.ndim > 1 else "")
     params = ["order=" + case["order"]] + (["index=" + idt] if idt != "int64" else [])
     params += ["shape=" + case["dims_kind"]] if case.get("dims_kind") else []
     ddims = _dims_arg(case.get("dims_kind"), dims)
     return {"label": "unravel_index", "feat": feat, "params": params, "name_outputs": False, "nontrivial": _split(d.chunks), "names": tuple("dim%d" % i for i in range(len(dims))),
-            "inputs": [idx],
             "ref": lambda: np.unravel_index(idx, ddims, order=case["order"]),
             "run": lambda: da.unravel_index(d, ddims, order=case["order"])}
 
@@ -1536,7 +1577,7 @@ def _p_coarsen(case):
     params += ["misaligned-chunks"] if any(c % axes.get(a, 1) for a, cs in enumerate(d.chunks) for c in cs) else []
     floaty = red in ("mean", "da.mean", "var1", "std0", "var0", "std1")
     tol = (max(axes.values(), default=1) ** max(1, len(axes)), 16.0 if red[:3] in ("var", "std") else 4.0) if floaty else None
-    return {"label": "coarsen", "feat": feat, "params": params, "nontrivial": _split(d.chunks), "tol": tol, "inputs": [x],
+    return {"label": "coarsen", "feat": feat, "params": params, "nontrivial": _split(d.chunks), "tol": tol,
             "ref": lambda: _coarsen_ref(functools.partial(nred, **kwargs), x, axes, trim),
             "run": lambda: da.coarsen(dred, d, dict(axes), trim_excess=trim, **kwargs)}
 
@@ -1555,7 +1596,7 @@ def _p_compress(case):
     if ck == "list":
         dcond = cond.tolist()
     elif ck == "dask":
-        dcond = da.from_array(cond, chunks=(tuple(case["cchunks"]),))
+        dcond = _fa(cond, chunks=(tuple(case["cchunks"]),))
     else:
         dcond = cond
     axis = case["axis"]
@@ -1565,6 +1606,6 @@ def _p_compress(case):
     n = x.size if axis is None else x.shape[axis]
     params = ["cond=" + ck] + (["short-condition"] if ln < n else []) + (["nd>1"] if x.ndim > 1 else [])
     params += (["axis=None"] if axis is None else []) + extra
-    return {"label": "compress", "feat": feat, "params": params, "inputs": [x, cond],
+    return {"label": "compress", "feat": feat, "params": params,
             "nontrivial": (bool(ch) and _split(ch)) or (ck == "dask" and _split((tuple(case["cchunks"]),))),
             "ref": lambda: np.compress(cond, xr, axis=axis), "run": lambda: da.compress(dcond, arg, axis=axis)}
